@@ -26,6 +26,10 @@ structure Cb (σ : Type) where
   comb : Hdrs σ
 deriving Repr
 
+/-- which user callbacks the `SsdpListener` was constructed with -/
+inductive CbMode | both | sync | async
+deriving DecidableEq, Repr
+
 section
 variable {σ : Type} [DecidableEq σ]
 
@@ -39,12 +43,15 @@ def lookOf (s : Tracker σ) (u ty : Option σ) : Look σ :=
   | none => ⟨false, [], [], none, none⟩
   | some d => ⟨true, keys d.search, keys d.adv, ty.bind (get? d.search), ty.bind (get? d.adv)⟩
 
-/-- both callback flavours are registered: the synchronous one runs first, the coroutine as a task -/
-def cbsOf (src : σ) (n : Option (Notif σ)) : List (Cb σ) :=
+/-- the callbacks of the registered flavours: the synchronous one runs first, the coroutine as a task -/
+def cbsOf (src : σ) (mode : CbMode) (n : Option (Notif σ)) : List (Cb σ) :=
   match n with
   | none => []
   | some n =>
-    [⟨false, n.udn, n.ty, n.source, combined src n.dev n.ty⟩, ⟨true, n.udn, n.ty, n.source, combined src n.dev n.ty⟩]
+    (match mode with
+     | .both => [⟨false, n.udn, n.ty, n.source, combined src n.dev n.ty⟩, ⟨true, n.udn, n.ty, n.source, combined src n.dev n.ty⟩]
+     | .sync => [⟨false, n.udn, n.ty, n.source, combined src n.dev n.ty⟩]
+     | .async => [⟨true, n.udn, n.ty, n.source, combined src n.dev n.ty⟩])
 
 end
 end Upnp.C03
